@@ -21,20 +21,20 @@ def tiers(prop, tier):
         return [(c, 1, 'all') for c in cfgs] + [(c, 0, 300000) for c in cfgs] + [('asan-sse2@lite', 1, 'all'), ('asan-avx2@lite', 1, 'all'), ('asan-avx512@lite', 1, 'all')]
     if prop == 'C05':
         if q:
-            return [('sse2-base@lite', 0, 30000), ('avx512@lite', 0, 30000), ('sse2-vecassign@lite', 0, 30000), ('avx2-vecassign@lite', 0, 30000)]
-        cfgs = ['sse2-base', 'sse42', 'avx', 'avx2', 'avx512', 'avx512-cxx17', 'sse2-vecassign', 'avx2-vecassign', 'avx512-vecassign',
-                'avx2-dontalign', 'scalar', 'O0-debug', 'O3-avx2', 'clang-sse2', 'clang-avx2', 'clang-avx512']
+            return [('sse2-base@lite', 0, 30000), ('avx512@lite', 0, 30000), ('sse2-vecassign@lite', 0, 30000), ('avx2-vecassign-checks@lite', 0, 30000)]
+        cfgs = ['sse2-base', 'sse42', 'avx', 'avx2', 'avx512', 'avx512-cxx17', 'sse2-vecassign', 'avx2-vecassign', 'avx512-vecassign', 'avx2-vecassign-checks',
+                'avx2-checks', 'avx2-dontalign', 'scalar', 'O0-debug', 'O3-avx2', 'clang-sse2', 'clang-avx2', 'clang-avx512']
         return [(c, 0, 400000) for c in cfgs] + [('asan-sse2@lite', 0, 50000), ('asan-avx2@lite', 0, 50000)]
     if prop == 'C18':
         if q:
-            return [('sse2-base@lite', 0, 30000), ('avx512@lite', 0, 30000), ('avx2@lite', 0, 30000)]
-        cfgs = ['sse2-base', 'sse42', 'avx', 'avx2', 'avx512', 'avx512-cxx17', 'sse2-vecassign', 'avx512-vecassign',
+            return [('sse2-base@lite', 0, 30000), ('avx512@lite', 0, 30000), ('avx2-checks@lite', 0, 30000)]
+        cfgs = ['sse2-base', 'sse42', 'avx', 'avx2', 'avx512', 'avx512-cxx17', 'sse2-vecassign', 'avx512-vecassign', 'avx2-checks',
                 'avx2-dontalign', 'scalar', 'O0-debug', 'O3-avx2', 'clang-sse2', 'clang-avx2', 'clang-avx512']
         return [(c, 0, 400000) for c in cfgs] + [('asan-sse2@lite', 0, 50000), ('asan-avx2@lite', 0, 50000)]
     if prop == 'C20':
         if q:
-            return [('sse2-base@lite', 0, 30000), ('avx512@lite', 0, 30000), ('avx2@lite', 0, 30000)]
-        cfgs = ['sse2-base', 'sse42', 'avx', 'avx2', 'avx512', 'avx512-cxx17', 'avx2-dontalign', 'scalar', 'O0-debug', 'O3-avx2',
+            return [('sse2-base@lite', 0, 30000), ('avx512@lite', 0, 30000), ('avx2-checks@lite', 0, 30000)]
+        cfgs = ['sse2-base', 'sse42', 'avx', 'avx2', 'avx512', 'avx512-cxx17', 'avx2-checks', 'avx2-dontalign', 'scalar', 'O0-debug', 'O3-avx2',
                 'clang-sse2', 'clang-avx2', 'clang-avx512']
         return [(c, 0, 400000) for c in cfgs] + [('asan-sse2@lite', 0, 50000), ('asan-avx2@lite', 0, 50000)]
     raise KeyError(prop)
@@ -396,7 +396,8 @@ def viewsim_universe(t, shape, config, flags):
     g = _lcg(hash((t, shape)) & 0xFFFFFF if False else sum(shape) * 131 + len(t) * 7 + R)
     dims = ','.join(map(str, shape))
     uname = f'{t},{dims}'
-    ops = [(f'dyn_write<{uname}>', 'dyn_write', 'K_DYN_WRITE', 'P_C05'), (f'elem_write<{uname}>', 'elem_write', 'K_ELEM_WRITE', 'P_C05')]
+    ops = [(f'dyn_write<{uname}>', 'dyn_write', 'K_DYN_WRITE', 'P_C05'), (f'elem_write<{uname}>', 'elem_write', 'K_ELEM_WRITE', 'P_C05'),
+           (f'bad_elem<{uname}>', 'bad_elem', 'K_BAD_ELEM', 'P_C05 | P_C18')]
     if R <= 3:
         ops += [(f'dyn_alias<{uname}>', 'dyn_alias', 'K_DYN_ALIAS', 'P_C18'), (f'h_create<{uname}>', 'handle', 'K_H_CREATE', 'P_C18'),
                 (f'h_noalias<{uname}>', 'handle', 'K_H_NOALIAS', 'P_C18'), (f'h_assign<{uname}>', 'handle_assign', 'K_H_ASSIGN', 'P_C18')]
@@ -520,7 +521,7 @@ M_SHAPES = [((6,), (2, 3), (3, 2)), ((12,), (3, 4), (2, 2, 3)), ((16,), (4, 4), 
             ((9,), (3, 3), (1, 9)), ((35,), (5, 7), (7, 5)), ((64,), (8, 8), (4, 4, 4)), ((30,), (2, 15), (2, 3, 5)), ((48,), (6, 8), (2, 2, 3, 4)),
             ((7,), (7, 1), (1, 1, 7)), ((33,), (3, 11), (11, 3)), ((12,), (2, 6), (2, 3, 2)), ((12,), (4, 3), (3, 2, 2)), ((8,), (2, 4), (2, 1, 4))]
 M_KINDS = ['K_SCALAR', 'K_TENSOR', 'K_EXPR', 'K_SELF_EXPR', 'K_METHOD', 'K_ELEM', 'K_FIXVIEW', 'K_DYNVIEW', 'K_REDUCE', 'K_READ_EXPR', 'K_MATMUL',
-           'K_REWRAP', 'K_SOURCE_WRITE', 'K_CTOR_LAYOUT', 'K_MAP_COPY', 'K_CROSS_HANDLE']
+           'K_REWRAP', 'K_SOURCE_WRITE', 'K_CTOR_LAYOUT', 'K_MAP_COPY', 'K_CROSS_HANDLE', 'K_BAD_ELEM']
 
 
 def gen_il_header(bdir):
